@@ -79,3 +79,30 @@ def consumer_literals(repo, attr):
                             (isinstance(x, ast.Attribute) and x.attr == attr) or (isinstance(x, ast.Name) and x.id == attr)):
                         out.append((m, q, c, y.value))
     return out
+
+
+def sets_are_collections(repo, res, rule):
+    """the right operand of a validating membership test is a collection of admitted values; a *string* there turns `val in S` into a
+    substring test (the empty string and every contiguous piece of S are admitted)"""
+    n = 0
+    for m, q, fn, cl, p, c, L, S in setter_instances(repo):
+        target = S
+        where = None
+        if isinstance(S, ast.Name):
+            r = repo.resolve_name(m, S.id)
+            if r and r[0] == "const":
+                target, where = r[2], r[1]
+        elif isinstance(S, ast.Attribute) and isinstance(S.value, ast.Name) and S.value.id == "self" and cl is not None:
+            c2, v = repo.class_attr(cl.name, S.attr)
+            if v is not None:
+                target, where = v, c2.mod
+        if not isinstance(target, (ast.Constant, ast.Tuple, ast.List, ast.Set, ast.Dict)):
+            continue
+        n += 1
+        ok = not (isinstance(target, ast.Constant) and isinstance(target.value, str))
+        res.ob(f"{rule}:{q}:{norm(S)}", ok, {"rule": rule, "setter": q, "admitted_values": norm(target)[:80]}, nontrivial=False)
+        if not ok:
+            res.add(Finding(rule, (where or m).rel, q, c, f"`{norm(c)}` tests membership in the *string* {norm(target)[:40]}: a substring test, which admits the empty string and "
+                            "every contiguous piece of it", c.lineno))
+    res.require(n >= 8, f"{rule}: only {n} membership tests with a resolvable table")
+    return n
